@@ -5,9 +5,9 @@
    the fix of property C07 (b1856f7: where key values become Prometheus label values they go through
    strings.ToValidUTF8(v, "") = Utf8.to_valid_utf8).  Since then the key_* metric labels are a LOSSY rendering of the
    key values (section 2c); pipeline, id / queue name, tag and the map entries follow the key values themselves. *)
-From SV Require Import Model.Common Model.Md5 Model.Routing Model.RoutingMem Spec.RoutingSpec
+From SV Require Import Model.Common Model.Md5 Model.Routing Model.RoutingMem Model.RoutingConc Spec.RoutingSpec
   Proofs.MergedKeyProofs Proofs.RoutingProofs Proofs.QueueProofs Proofs.TagTemplateProofs Proofs.RestartProofs Proofs.RoutingMemProofs
-  Proofs.LabelValueProofs.
+  Proofs.LabelValueProofs Proofs.RoutingConcProofs.
 From SV Require Model.Utf8 Spec.Utf8Spec.
 
 (* ---------------------------------------------------------------------------------------------- *)
@@ -326,3 +326,101 @@ Print Assumptions C06_md5_hypothesis_holds.
 Theorem C06_example : example_statement.
 Proof. exact example_proof. Qed.
 Print Assumptions C06_example.
+
+(* ---------------------------------------------------------------------------------------------- *)
+(* 6. concurrent input sinks (Model/RoutingConc.v): the key values of a record travel from Extract to GetOrCreate
+      through the extractor's scratch slice; every sink is a process, the steps of one record (start, one store per
+      key field, read + local lookup, read again + global getOrCreate) are separate events, and a schedule is ANY
+      list of sink numbers.  [run_sched false] = one scratch slice per sink (NewSink: base.NewFieldSetExtractor),
+      [run_sched true] = all sinks use the same slice. *)
+
+(* Every interleaving of any number of sinks with any programs of records of the configured arity: each record that
+   is appended to a pipeline is appended to a pipeline whose keys, id (queue name), tag and labels are those of the
+   record's OWN key values. *)
+Theorem C06_conc_routing_own_keys :
+  forall parts n ids g0 progs sched st,
+    orch_init parts n ids = Ok g0 ->
+    Forall (Forall (fun t => length t = n)) progs ->
+    run_sched false parts n (c_init g0 n progs) sched = Ok st ->
+    forall s t i, In (s, t, i) (c_log st) ->
+      exists p, nth_error (g_pipes (c_g st)) i = Some p /\ p_keys p = t /\ p_id p = pipeline_id t /\
+                build_tag parts t = Ok (p_tag p) /\ p_labels p = map Utf8.to_valid_utf8 t.
+Proof. exact conc_routing_own_keys_lemma. Qed.
+Print Assumptions C06_conc_routing_own_keys.
+
+(* ... two records of the run - of the same or of different sinks - share a pipeline exactly when their key tuples are equal *)
+Theorem C06_conc_routing_injective :
+  forall parts n ids g0 progs sched st,
+    orch_init parts n ids = Ok g0 ->
+    Forall (Forall (fun t => length t = n)) progs ->
+    run_sched false parts n (c_init g0 n progs) sched = Ok st ->
+    forall s t i s' t' i', In (s, t, i) (c_log st) -> In (s', t', i') (c_log st) -> (t = t' <-> i = i').
+Proof. exact conc_routing_injective_lemma. Qed.
+Print Assumptions C06_conc_routing_injective.
+
+(* ... and no pipeline exists for a key tuple that no record has (only those found at startup and those of routed records) *)
+Theorem C06_conc_no_phantom :
+  forall parts n ids g0 progs sched st,
+    orch_init parts n ids = Ok g0 ->
+    Forall (Forall (fun t => length t = n)) progs ->
+    run_sched false parts n (c_init g0 n progs) sched = Ok st ->
+    forall p, In p (g_pipes (c_g st)) -> In p (g_pipes g0) \/ exists s i, In (s, p_keys p, i) (c_log st).
+Proof. exact conc_no_phantom_lemma. Qed.
+Print Assumptions C06_conc_no_phantom.
+
+(* What is logged for a sink (oldest first), the record it is working on and what it still has to do are its program:
+   no record is routed twice, skipped, reordered or invented - under every schedule and either ownership of the scratch
+   (so the entries of the log ARE the records of the programs with their own key values). *)
+Theorem C06_conc_log_is_program :
+  forall shared parts n g0 progs sched st,
+    run_sched shared parts n (c_init g0 n progs) sched = Ok st ->
+    forall s p, nth_error (c_procs st) s = Some p -> logged s (c_log st) ++ cur_of p ++ sp_todo p = nth s progs [].
+Proof. exact conc_log_is_program_lemma. Qed.
+Print Assumptions C06_conc_log_is_program.
+
+(* Interleaving independence: two complete runs of the same programs under ANY two schedules route the same records
+   per sink in the same order, the same record reaches a pipeline with the same keys / id / tag / labels in both, and the
+   same pipelines exist.  (This is what allows the correspondence run of kind 8 to compare the model under a schedule
+   drawn by the generator with the implementation under the schedule of the Go runtime.) *)
+Theorem C06_conc_schedule_independent :
+  forall parts n ids g0 progs sched1 sched2 st1 st2,
+    orch_init parts n ids = Ok g0 ->
+    Forall (Forall (fun t => length t = n)) progs ->
+    run_sched false parts n (c_init g0 n progs) sched1 = Ok st1 -> all_done st1 = true ->
+    run_sched false parts n (c_init g0 n progs) sched2 = Ok st2 -> all_done st2 = true ->
+    (forall s, logged s (c_log st1) = logged s (c_log st2)) /\
+    (forall s t i1 i2 p1 p2, In (s, t, i1) (c_log st1) -> In (s, t, i2) (c_log st2) ->
+        nth_error (g_pipes (c_g st1)) i1 = Some p1 -> nth_error (g_pipes (c_g st2)) i2 = Some p2 -> p1 = p2) /\
+    (forall p, In p (g_pipes (c_g st1)) <-> In p (g_pipes (c_g st2))).
+Proof. exact conc_schedule_independent_lemma. Qed.
+Print Assumptions C06_conc_schedule_independent.
+
+(* The run of correspondence kind 8 (pseudo-random picks, then every sink to its end) is the run of one schedule. *)
+Theorem C06_conc_run_is_a_schedule :
+  forall shared parts n progs seed burst,
+    exists sched, conc_exec shared parts n progs seed burst = run_sched shared parts n (c_init g_init n progs) sched.
+Proof. exact conc_exec_is_sched. Qed.
+Print Assumptions C06_conc_run_is_a_schedule.
+
+(* With ONE scratch slice for all sinks (seeded change C06/4: the orchestrator keeps one FieldSetExtractor and copies
+   the struct into every sink) the statement fails: sinks 0 and 1 with the records (info, web) and (warn, db), template
+   $level-$app; sink 1 stores its level between sink 0's Extract and sink 0's lookup: the record (info, web) is appended
+   to a pipeline with keys (warn, web), id "warn,web", tag "warn-web" - a key set no record has.  The same schedule with
+   one slice per sink gives the two pipelines (info, web) and (warn, db). *)
+Theorem C06_shared_scratch_refuted :
+  exists st, run_sched true w_parts 2 (c_init g_init 2 w_progs) w_sched = Ok st /\ all_done st = true /\
+    (exists p, In (O, [w_info; w_web], O) (c_log st) /\ nth_error (g_pipes (c_g st)) O = Some p /\
+               p_keys p = [w_warn; w_web] /\ p_id p = w_warn ++ [44] ++ w_web /\ p_tag p = w_warn ++ [45] ++ w_web) /\
+    (forall s t i, In (s, t, i) (c_log st) -> t <> [w_warn; w_web]) /\
+    (exists st', run_sched false w_parts 2 (c_init g_init 2 w_progs) w_sched = Ok st' /\ all_done st' = true /\
+                 map p_keys (g_pipes (c_g st')) = [[w_info; w_web]; [w_warn; w_db]]).
+Proof. exact shared_scratch_refuted_lemma. Qed.
+Print Assumptions C06_shared_scratch_refuted.
+
+(* The hypotheses of the theorems of this section are satisfiable: two sinks, three records, stores interleaved field by field. *)
+Theorem C06_conc_example :
+  orch_init w_parts 2 [] = Ok g_init /\ Forall (Forall (fun t => length t = 2%nat)) ex_progs /\
+  exists st, run_sched false w_parts 2 (c_init g_init 2 ex_progs) ex_sched = Ok st /\ all_done st = true /\
+             length (c_log st) = 3%nat /\ map p_id (g_pipes (c_g st)) = [w_info ++ [44] ++ w_web; w_warn ++ [44] ++ w_db].
+Proof. exact conc_example_lemma. Qed.
+Print Assumptions C06_conc_example.
